@@ -66,6 +66,8 @@ type PropConfig struct {
 	Replays     []string `json:"replays,omitempty"`
 	Lean        []string `json:"lean,omitempty"`
 	AllocBound  bool     `json:"alloc_bound,omitempty"`
+	// EnsuresCover: vacuity covers for the antecedents of root postconditions (ensurescover.go)
+	EnsuresCover bool `json:"ensures_cover,omitempty"`
 	Extra       []string `json:"extra_cmds,omitempty"`
 }
 
@@ -134,6 +136,7 @@ type checkResult struct {
 func runUnit(u Unit, cfg *PropConfig, tier string, workdir string, res *checkResult) {
 	e := NewEngine()
 	e.allocBound = cfg.AllocBound
+	ensuresCoverOn = cfg.EnsuresCover
 	dir := filepath.Join(repoDir, u.Module)
 	t0 := time.Now()
 	if err := e.Load(dir, u.Packages); err != nil {
@@ -600,6 +603,9 @@ func writeReplay(path, id string, g *group, cfg *PropConfig) bool {
 func (e *Engine) discharge(workdir string, timeout int) {
 	var wg sync.WaitGroup
 	sem := make(chan struct{}, parallelism())
+	// a vacuity cover is alive as soon as one of its instances (paths) is satisfiable: the others need no solver run
+	var coverMu sync.Mutex
+	coverSat := map[string]bool{}
 	for i, o := range e.obligations {
 		if o.Result != nil {
 			continue
@@ -617,8 +623,20 @@ func (e *Engine) discharge(workdir string, timeout int) {
 			to := timeout
 			if o.ExpectSat {
 				to = 3 // vacuity covers: only an "unsat" answer matters
+				coverMu.Lock()
+				done := coverSat[o.Name]
+				coverMu.Unlock()
+				if done {
+					o.Result = &SolverResult{Status: "sat", Solver: "cover-alive-on-another-path"}
+					return
+				}
 			}
 			r := Solve(workdir, fmt.Sprintf("%s.%d", o.Name, i), q, to, nil)
+			if o.ExpectSat && r.Status == "sat" {
+				coverMu.Lock()
+				coverSat[o.Name] = true
+				coverMu.Unlock()
+			}
 			if r.Status == "sat" && o.Hint != nil && !o.ExpectSat {
 				// look for a more realistic counterexample (replay hint); the verdict is already fixed
 				q2 := o.U.Query(append(append([]Term(nil), o.Assumes...), *o.Hint), o.Goal, gv)
